@@ -203,6 +203,27 @@ FAMILIES.update({
     },
 })
 
+FAMILIES.update({
+    'Clafer-Tree': {
+        'quick':    dict(consts=dict(N=5, MaxKids=3, MinHi=0), invariants=tlc.GEN_INVARIANTS),
+        'thorough': dict(consts=dict(N=6, MaxKids=4, MinHi=0), invariants=tlc.GEN_INVARIANTS),
+    },
+    'Clafer-Ctc': {
+        'quick':    dict(consts=dict(N=4, MaxKids=3, MinHi=1, Axes={'ctc'}, MaxCtc=1, CtcDepth=1, CtcBinOps=LOGIC_BIN, CtcMinFeatures=3),
+                         invariants=tlc.GEN_INVARIANTS),
+        'thorough': dict(consts=dict(N=5, MaxKids=3, MinHi=1, Axes={'ctc'}, MaxCtc=1, CtcDepth=1, CtcBinOps=LOGIC_BIN, CtcMinFeatures=3),
+                         invariants=tlc.GEN_INVARIANTS, cap=60000),
+    },
+    'Clafer-Attr': {
+        'quick':    dict(consts=dict(N=2, MaxKids=1, MinHi=1, Axes={'attr'}, AttrNames=['a1', 'a2'],
+                                     AttrVals=[{'val': v, 'dom': '', 'nul': 'n'} for v in ['b:true', 'i:5', 'd:1.5', 's:txt']]),
+                         invariants=tlc.GEN_INVARIANTS, cap=1500),
+        'thorough': dict(consts=dict(N=3, MaxKids=2, MinHi=1, Axes={'attr'}, AttrNames=['a1', 'a2'],
+                                     AttrVals=[{'val': v, 'dom': '', 'nul': 'n'} for v in ['b:true', 'i:5', 'd:1.5', 's:txt']]),
+                         invariants=tlc.GEN_INVARIANTS, cap=20000),
+    },
+})
+
 _cache = {}
 
 
